@@ -128,8 +128,16 @@ Proof. exact class_errors_table. Qed.
    the source); the model variant of the compiler before commit 0fbde2d provably does not refine the Spec --- *)
 Theorem C07_side_super_receiver :
   super_mode_of_code src_super_receiver_code = Some SuperEnclosingMethod /\
-  option_map sem_mech_gen (super_mode_of_code src_super_receiver_code) = Some sem_mech.
+  option_map (fun m => sem_mech_gen m IterInvoke) (super_mode_of_code src_super_receiver_code) = Some sem_mech.
 Proof. vm_compute. split; reflexivity. Qed.
+(* every member access the VM performs by name on its own initiative goes through `invoke` (fields first): IterNext sends
+   "next" through `invoke`; the for statement fetches the iterator by an ordinary Invoke of "iter"; `invoke_from_class`
+   is called only by `invoke` itself and by SuperInvoke; no other dispatch site exists (fails closed on unknown shapes) *)
+Theorem C07_side_implicit_member_access :
+  iter_mode_of_code src_iter_next_code = Some IterInvoke /\ src_iter_next_name = "next" /\
+  src_unexpected_dispatch_sites = [] /\ src_for_fetches_iterator_by_plain_invoke = true /\
+  option_map (sem_mech_gen SuperEnclosingMethod) (iter_mode_of_code src_iter_next_code) = Some sem_mech.
+Proof. vm_compute. repeat split; reflexivity. Qed.
 Theorem C07_eval_mech_eq_spec : forall p, eval_mech p = eval_spec p.
 Proof. exact eval_mech_eq_spec. Qed.
 Theorem C07_eval_mech_eq_spec_any_fuel : forall fuel c p, c_super c = None -> c_owner c = None ->
@@ -144,6 +152,11 @@ Theorem C07_eval_mech_eq_spec_refuted_any_static :
   show_outcome (eval_mech_any_static ex_static_factory) <> show_outcome (eval_spec ex_static_factory) /\
   show_outcome (eval_mech ex_static_factory) = show_outcome (eval_spec ex_static_factory).
 Proof. exact eval_mech_eq_spec_refuted_any_static. Qed.
+Theorem C07_eval_mech_eq_spec_refuted_iter_from_class :
+  show_outcome (eval_spec ex_iter_field) = "field~own#ok" /\
+  show_outcome (eval_mech_iter_from_class ex_iter_field) = "own~own#ok" /\
+  show_outcome (eval_mech ex_iter_field) = show_outcome (eval_spec ex_iter_field).
+Proof. exact eval_mech_eq_spec_refuted_iter_from_class. Qed.
 Theorem C07_super_captured_at_definition : forall S c st cd st' o, Inv st -> (S = sem_mech \/ S = sem_spec) ->
   exec_class S c st cd = (st', o) ->
   Inv st' /\
@@ -176,3 +189,5 @@ Print Assumptions C07_super_captured_at_definition.
 Print Assumptions C07_eval_mech_eq_spec_refuted_old.
 Print Assumptions C07_eval_mech_eq_spec_refuted_any_static.
 Print Assumptions C07_side_super_receiver.
+Print Assumptions C07_side_implicit_member_access.
+Print Assumptions C07_eval_mech_eq_spec_refuted_iter_from_class.
